@@ -666,6 +666,7 @@ func (m *metadataAPI) ReportLeader(ctx context.Context, req *proto.ReportLeaderO
 			fmt.Sprintf("Leader generation mismatch, current leader: %s epoch: %d, got leader: %s epoch: %d",
 				leader, epoch, req.Leader, req.LeaderEpoch))
 	}
+	verifGate("metadata.report_leader.checked")
 
 	m.mu.Lock()
 	failover := m.partitionFailovers[partition]
